@@ -7,7 +7,8 @@ EXPLANATION = (
     "written addresses parse back to the numbers they were written from (cell, range, partial ranges), negative numbers count from the end, "
     "string forms are accepted wherever a position is; Row API negative positions agree with non-negative ones (KT layer). "
 )
-OUTSIDE = "expanding getters at repeats > 2; columns of 4 or more letters (> 18277), rows > 10000 in written addresses, NamedRange re-parsing and Table.name renames (pending symdom obligations)"
+OUTSIDE = ("expanding getters at repeats > 2; columns of 4 or more letters (> 18277), rows > 10000 in written addresses; named ranges: symbolic table names longer than 2 characters "
+           "(longer ones from a representative list), areas beyond D4, table names containing . or $ (known finding C19-namedrange-dot-dollar); Table.name renames updating named ranges")
 ASSUMPTIONS = []
 TRUSTED = _T
 _ENC = ["src/odfdo/utils/coordinates.py:alpha_to_digit,digit_to_alpha,convert_coordinates,increment,translate_from_any"]
@@ -39,4 +40,18 @@ OBLIGATIONS += [
     _k("kget_area_negative_cols", 80, "cell-runs in 1..2: negative column numbers in 4-tuple areas and column ranges"),
     _k("kget_area_negative_rows", 150, "row-runs in 1..2: negative row numbers (and negative last column) in 4-tuple areas for get_values/get_cells/get_rows"),
     _k("kget_columns_range_small", 20, "cell-runs in 1..2: a column range bounds get_columns on both sides"),
+]
+
+
+_NENC = ["src/odfdo/table.py:NamedRange.__init__,set_range,_set_range,_update_attributes,_make_base_cell_address,_make_cell_range_address,_table_name_check", KT_ENCODES[3]]
+_NSTUB = ["/verif/shadow/lxml (symdom)"]
+OBLIGATIONS += [
+    Obl(name="nr_roundtrip_name", module="h_nrange", func="nr_roundtrip_name", shadow=True, timeout=600, replay="r_h_nrange:nr_roundtrip_name", weight=120,
+        bounds="table names of 1..2 characters over {a, b, space, apostrophe}, area A1:B2", encodes=_NENC, stubs=_NSTUB),
+    Obl(name="nr_roundtrip_area", module="h_nrange", func="nr_roundtrip_area", shadow=True, timeout=500, replay="r_h_nrange:nr_roundtrip_area", weight=95,
+        bounds="areas with corners in 0..3, table name one of 'ab', 'a b', \"a'b\"", encodes=_NENC, stubs=_NSTUB),
+    Obl(name="nr_roundtrip_listed", module="h_nrange", func="nr_roundtrip_listed", shadow=True, timeout=300, replay="r_h_nrange:nr_roundtrip_listed", weight=45,
+        bounds="9 representative longer names chosen by a symbolic index (the solver only picks the case), areas with corner in 0..2", encodes=_NENC, stubs=_NSTUB),
+    Obl(name="nr_roundtrip_dotted", module="h_nrange", func="nr_roundtrip_dotted", shadow=True, timeout=120, replay="r_h_nrange:nr_roundtrip_dotted", weight=10,
+        expect="finding", finding="C19-namedrange-dot-dollar", bounds="companion of known finding C19-namedrange-dot-dollar", encodes=_NENC, stubs=_NSTUB),
 ]
